@@ -13,6 +13,11 @@ CHECKS = {
    text="Theorems about an executable model of the linear system of one implicit step (1D/2D/3D, any nr/nt/nz, any dt, lagged coefficients, every wall kind): radial/circumferential/axial telescoping, step_balance (stored-heat change = dt x net wall-face flux + source), wall contribution per kind, flux_sign on both walls, area_defect (dr/2 offset of the wall half-cell radii), insulated_exact. The model is tied to srlife by capturing the matrix and right-hand side the real solve_step hands to its sparse solver and comparing them entry by entry; the identities are also evaluated with an independent numpy formula on real multi-step solves.",
    note="Trusted: Lean kernel + Mathlib (propext/Classical.choice/Quot.sound); harness capture at scipy spsolve; Float vs real arithmetic (compared at 1e-11); theorems speak of exact solutions, real solves meet them to the Newton tolerance. Known finding F17 (thick coarse tubes) is outside hypothesis 0 < r_{1/2}.",
    design="4/C02"),
+ "C06": dict(
+   technique="Lean 4 proof (discrete maximum principle by extremal-node argument over the ghosted stencil, all grids/dimensions/dt, induction over steps) + correspondence of the step system with the real solve_step",
+   text="Theorems: max_principle (every real-node value of every solution of a transient step lies between min and max of previous values, prescribed wall temperatures and fluid temperatures; any dt > 0, any grid, 1D/2D/3D, any film number >= 0), max_principle_history (induction over steps and sub-steps), uniform_stays_uniform (+ uniform_solves), nonneg_flux_no_cooling, step_unique. Tied to srlife by comparing the captured (matrix, rhs) of the real solve_step with the model rows, checking that the solver's Jacobian is the derivative of its residual, and by evaluating the bounds on real solves with steps up to 2^20 x the base step.",
+   note="Trusted: Lean kernel + Mathlib (propext/Classical.choice/Quot.sound); harness capture at spsolve; rounding (bounds checked with an amplification-aware slack); hypothesis WeightsNonneg (dr <= 2 r_inner, c >= 0) — its failure is known finding F17.",
+   design="4/C06"),
 }
 PENDING_REASON = "check not built yet in this round (work in progress; see DESIGN.md section 4 for the planned model and theorems) — not claimed"
 
